@@ -19,7 +19,8 @@ RULE = ('each case = one pattern (open+END_STREAM churn, open+RST churn, PRIORIT
         'refused pushes) of 2N frames on a server or client with a census at N and 2N; non-trivial = census compared or a '
         'limit boundary judged; distinct = (pattern, role, parameters)')
 MINIMA = {'non_opening_frames_checked': 100000, 'continuation_chains_judged': 300, 'header_list_limits_judged': 600,
-          'census_comparisons': 300, 'closed_stream_cap_reached': 100}
+          'census_comparisons': 300, 'closed_stream_cap_reached': 100,
+          'cases_with_unlimited_local_stream_limit': 60, 'cases_without_forced_cleanup': 200}
 
 
 def n_cases(tier):
@@ -81,16 +82,25 @@ def run_case(idx, rng, tier, rep):
         return run_continuation(rng, rep, e_client)
     if pat == 'mhls':
         return run_mhls(rng, rep, e_client)
-    h = scen.Hostile(e_client, keep_log=False)
+    # some endpoints allow (and have had acknowledged) a practically unlimited number of concurrent streams, and some
+    # applications never read the open-stream counters: retained state must stay bounded for them as well
+    big_limit = pat in ('churn-es', 'churn-rst', 'mixed', 'wu-rst-closed') and rng.random() < 0.4
+    force_cleanup = rng.random() < 0.5
+    e_settings = {wire.S_MAX_CONCURRENT_STREAMS: 2 ** 31 - 1} if big_limit else None
+    h = scen.Hostile(e_client, keep_log=False, e_settings=e_settings)
     t = h.t
     cap = getattr(type(h.c), 'MAX_CLOSED_STREAMS', None)
     snaps = []
+    if big_limit:
+        rep.count('cases_with_unlimited_local_stream_limit')
+    if not force_cleanup:
+        rep.count('cases_without_forced_cleanup')
     frames_sent = 0
     w = {'pattern': pat, 'role': 'client' if e_client else 'server'}
 
     def reconnect():
         nonlocal h, t
-        h = scen.Hostile(e_client, keep_log=False)
+        h = scen.Hostile(e_client, keep_log=False, e_settings=e_settings)
         t = h.t
 
     def non_opening(data, what):
@@ -199,8 +209,9 @@ def run_case(idx, rng, tier, rep):
             rep.violation('C27:closed-stream-memory-above-cap', 'closed-stream memory holds %d entries, cap %d' % (len(cs), cap), w)
             return
         if frames_sent in (nframes // 2, nframes):
-            # quiescent: force the lazy cleanup the way an application reading the counters would
-            h.cleanup()
+            # quiescent: in half of the cases force the lazy cleanup the way an application reading the counters would
+            if force_cleanup:
+                h.cleanup()
             snaps.append(census(h.c))
     if len(snaps) == 2:
         rep.count('census_comparisons')
